@@ -46,20 +46,41 @@ RECURSIVE SkipDigits(_, _)
 SkipDigits(v, k) == IF k <= Len(v) /\ IsDig(v[k]) THEN SkipDigits(v, k + 1) ELSE k
 IsMarker(t) == /\ t.k = "str" /\ Len(t.v) >= 4 /\ t.v[1] = 76 /\ IsDig(t.v[2])
                /\ LET k == SkipDigits(t.v, 2) IN k < Len(t.v) /\ t.v[k] = 115 /\ IsDig(t.v[k + 1]) /\ SkipDigits(t.v, k + 1) = Len(t.v) + 1
+RECURSIVE LessBytesFrom(_, _, _)
+LessBytesFrom(x, y, n) == IF n > Len(y) THEN FALSE ELSE IF n > Len(x) THEN TRUE ELSE IF x[n] # y[n] THEN x[n] < y[n] ELSE LessBytesFrom(x, y, n + 1)
+LessBytes(x, y) == LessBytesFrom(x, y, 1)
+\* ---- C04: names.  An identifier that occurs k times in the source and k times in the output is ORIGINAL code (no rule
+\* added or removed an occurrence): its i-th occurrence must still be on the line of the i-th occurrence in the source
+\* (+ the uniform shift).  Switched off (o.names = 0) for pipelines that rename identifiers.
+\* identifiers that rules SYNTHESISE (math.floor of remove_floor_division, string.format / tostring of
+\* remove_interpolated_string, self of remove_method_definition ...): an occurrence removed by one rule and another created by
+\* a second rule would look like one surviving occurrence; these names are not judged
+RuleVocabulary == {BytesOf("math"), BytesOf("floor"), BytesOf("string"), BytesOf("format"), BytesOf("tostring"), BytesOf("self"), BytesOf("select"),
+                   BytesOf("table"), BytesOf("unpack"), BytesOf("_")}
+NameLines(c, lines, v) == LET idx == SelectSeq([j \in 1..Len(c) |-> j], LAMBDA j : c[j].k = "name" /\ c[j].v = v) IN [n \in 1..Len(idx) |-> lines[idx[n]]]
+MovedNames(o, ca, la, cb, lb) ==
+  LET names == {ca[j].v : j \in {j \in 1..Len(ca) : ca[j].k = "name"}} \ RuleVocabulary IN
+  {v \in names : LET x == NameLines(ca, la, v) IN LET y == NameLines(cb, lb, v) IN
+                   Len(x) = Len(y) /\ \E n \in 1..Len(x) : y[n] # x[n] + o.shift}
 JudgeMarkers(o) ==
   LET b == Lex(o.outb, TRUE) IN
   LET okrun == o.status = "ok" IN
   LET c == IF okrun /\ b.ok THEN Code(b) ELSE <<>> IN
   LET lines == LinesAcc(o.outb, c, 1, 1, 1, <<>>) IN
+  LET a == IF okrun /\ b.ok /\ o.names = 1 THEN Lex(o.srcb, TRUE) ELSE [ok |-> FALSE, toks |-> <<>>] IN
+  LET ca == IF a.ok THEN Code(a) ELSE <<>> IN
+  LET moved == IF a.ok THEN MovedNames(o, ca, LinesAcc(o.srcb, ca, 1, 1, 1, <<>>), c, lines) ELSE {} IN
   LET ms == {j \in 1..Len(c) : IsMarker(c[j])} IN
   LET onLine(j) == lines[j] = DigitsVal(c[j].v, 2, 0) + o.shift IN
   \* a rule may COPY an expression (the copy is new code): a marker is misplaced only if NO occurrence of it is on its line
   LET off == {j \in ms : ~onLine(j) /\ ~\E k \in ms : c[k].v = c[j].v /\ onLine(k)} IN
   LET first == IF off = {} THEN 0 ELSE CHOOSE j \in off : \A k \in off : j <= k IN
+  \* code_equal carries the verdict of the names clause; `moved` lists the identifiers found on another line
   [id |-> o.id, kind |-> o.kind, status |-> o.status, lex_in |-> TRUE, lex_out |-> b.ok, identical |-> FALSE,
-   code_equal |-> TRUE, comments_ok |-> TRUE, lines_ok |-> okrun /\ b.ok /\ off = {},
+   code_equal |-> moved = {}, comments_ok |-> TRUE, lines_ok |-> okrun /\ b.ok /\ off = {},
    shift |-> IF first = 0 THEN 0 ELSE lines[first] - DigitsVal(c[first].v, 2, 0),
-   ok |-> okrun /\ b.ok /\ off = {}, ncode |-> Cardinality(ms), ncomments |-> IF first = 0 THEN 0 ELSE DigitsVal(c[first].v, 2, 0)]
+   ok |-> okrun /\ b.ok /\ off = {} /\ moved = {}, ncode |-> Cardinality(ms), ncomments |-> IF first = 0 THEN 0 ELSE DigitsVal(c[first].v, 2, 0),
+   moved |-> LET q == moved IN [k \in 1..Cardinality(q) |-> CHOOSE v \in q : Cardinality({w \in q : LessBytes(w, v)}) = k - 1]]
 
 \* C03, weaker clause: `tspans` lists the byte ranges of the source that are type annotations; there (and only there)
 \* parentheses and spacing may be added or removed.  MaskedEq walks both texts: equal bytes are consumed together, a soft
